@@ -119,9 +119,8 @@ func init() {
 		Judge: func(args, real, drv json.RawMessage) *core.Verdict {
 			var d map[string]json.RawMessage
 			json.Unmarshal(drv, &d)
-			cls := core.Class(real)
-			if cls == "hang" || cls == "fatal" {
-				v := core.Fail("hang@reset/alias-self-merge", "alias expansion does not return on this document ("+string(real)+")")
+			if why := nonTermination(real); why != "" {
+				v := core.Fail("hang@alias-self-merge", "alias expansion does not return on this document ("+why+")")
 				if _, ok := d["outOfFuel"]; !ok {
 					v.What += " — and the model expected " + string(drv)
 				}
